@@ -709,9 +709,16 @@ Theorem head_reply_no_body h c11 evs k :
   h_head h = true -> relay h c11 evs k = (CHeadOnly, ([], false)).
 Proof. intros H. unfold relay, client_framing. now rewrite H. Qed.
 
-Theorem bodiless_reply_clean h c11 tail k :
+Lemma srv_nobody_body_empty evs : forall s, sv_body s = [] -> sv_body (srv_from ONoBody s evs) = [].
+Proof.
+  induction evs as [|e evs IH]; intros s H; [exact H|].
+  rewrite srv_from_cons. apply IH. unfold srv_step. destruct (sv_done s); [exact H|]. destruct e; exact H.
+Qed.
+
+(* 204 / 304 / 1xx-class status: nothing follows the head, whatever the origin sends and however it is segmented *)
+Theorem bodiless_reply_clean h c11 evs k :
   h_head h = false -> h_chunked h = false -> expecting_body h = false ->
-  relay h c11 (OSeg [] :: tail) k = (CNoBody, ([], false)).
+  relay h c11 evs k = (CNoBody, ([], false)).
 Proof.
   intros Hh Hc He. unfold relay.
   assert (Hf : origin_framing h = ONoBody) by (unfold origin_framing; now rewrite Hc, He).
@@ -723,10 +730,7 @@ Proof.
     - destruct (h_status h =? sc_no_content); [reflexivity|].
       destruct (h_status h =? sc_not_modified); [reflexivity|].
       destruct (h_status h <? sc_okay); [reflexivity|discriminate]. }
-  rewrite Hf, Hcf. rewrite srv_run_from, srv_from_cons.
-  change (srv_step ONoBody srv_init (OSeg [])) with
-    {| sv_dec := CSize0; sv_seen := 0; sv_body := []; sv_whole := true; sv_done := true |}.
-  rewrite srv_done_stays by reflexivity. cbn [sv_body sv_whole]. reflexivity.
+  rewrite Hf, Hcf. rewrite srv_run_from, (srv_nobody_body_empty evs srv_init eq_refl). reflexivity.
 Qed.
 
 (* ---------- refutations (witnesses are replayed against the running proxy: corpus/C01/known.jsonl) ---------- *)
@@ -743,11 +747,6 @@ Theorem truncation_http10_refuted :
   ref_read cf stream closed = ([97;98;99;100;101], true, []) /\ [97;98;99;100;101] <> concat w_ds.
 Proof. vm_compute. repeat split; discriminate. Qed.
 
-Theorem bodiless_extra_bytes_refuted :
-  expecting_body (w_head 204 false) = false /\
-  let '(cf, (stream, closed)) := relay (w_head 204 false) true [OSeg [71;71;71]; OEof] 4096 in
-  cf = CNoBody /\ closed = false /\ ref_read cf stream closed = ([], true, [71;71;71]).
-Proof. vm_compute. repeat split. Qed.
 
 (* ====================================================================================================== *)
 (* 6. request direction                                                                                    *)
